@@ -36,7 +36,7 @@ STUB = ["HybridRunner scenario threads run serially (SerialThread)", "agents/mod
 ASSUMPTIONS = ["every agent of a type carries the properties x and n (the property speaks of 'that property over exactly those agents'); a third numeric property y is carried by the agents with odd ids only and is judged for presence, total, minimum and maximum over its carriers, not for its mean",
                "requested states occur at least once during the run (a state that never occurs has no column to compare)"]
 FAULT_KINDS = []
-PROBES = ["two_scenarios_in_one_frame", "two_scenarios_with_different_recorded_times", "property_carried_by_some_agents_only", "group_with_distinct_min_max_mean", "state_empty_then_populated", "negative_and_fractional_values", "agents_deleted_mid_run",
+PROBES = ["two_agent_based_managers_in_one_call", "two_scenarios_in_one_frame", "two_scenarios_with_different_recorded_times", "property_carried_by_some_agents_only", "group_with_distinct_min_max_mean", "state_empty_then_populated", "negative_and_fractional_values", "agents_deleted_mid_run",
           "format_df", "format_dict", "format_json", "negative_stop_time", "two_scenarios_of_a_class_path_manager"]
 EXHAUSTIVE = {"quick": False, "thorough": False}
 PTYPES = ["total", "min", "max", "mean"]
@@ -53,7 +53,7 @@ def generate(spec):
     sc = W.gen_scenario(rng, allow_zero_stop=True)
     # richer populations: the four aggregates should differ
     sc["init"] = [["a", rng.choice([2, 3, 4, 5])], ["b", rng.choice([0, 1, 3])]]
-    via = rng.choice(["direct", "bptk", "bptk", "bptk_class"])
+    via = rng.choice(["direct", "bptk", "bptk", "bptk_class", "bptk_two_managers"])
     sel = {"agents": rng.sample(["a", "b"], rng.choice([1, 2])),
            "states": rng.sample(W.STATES, rng.choice([1, 2, 3])),
            "properties": rng.sample(["x", "n"], rng.choice([0, 1, 2])),
@@ -61,6 +61,11 @@ def generate(spec):
     if not sel["properties"]:
         sel["types"] = []
     case = {"property": PROPERTY, "via": via, "scenario": sc, "selection": sel}
+    if via == "bptk_two_managers":
+        # two agent-based managers, each with a scenario of the same name; one call over both
+        sc2 = W.gen_scenario(rng, allow_zero_stop=True, small=True)
+        sc2["init"] = [["a", rng.choice([1, 2, 6])], ["b", rng.choice([0, 2])]]
+        case["scenario2"] = sc2
     if via == "bptk_class":
         # a second scenario of the same manager, run in the same call
         sc2 = W.gen_scenario(rng, allow_zero_stop=True, small=True)
@@ -218,6 +223,61 @@ def execute(case):
         snaps = m.world.snaps
         rich = check_stats(res, stats, snaps)
         compared = True
+    elif case["via"] == "bptk_two_managers":
+        from checks.c12 import _session_world
+        with patches.installed(threads="serial", global_thread=True):
+            scs = [sc, case["scenario2"]]
+            names = ["smAbm0", "smAbm1"]
+            b, models = _session_world(scs, names)
+            m = models[0]
+            res.probe("two_agent_based_managers_in_one_call")
+            rich = False
+            compared = False
+            outs = {}
+            for fmt in ("df", "dict", "json"):
+                try:
+                    outs[fmt] = b.run_scenarios(scenarios=["s0"], scenario_managers=list(names), agents=["a"], agent_states=["idle"],
+                                                series_names={}, return_format=fmt)
+                    if fmt == "json":
+                        outs[fmt] = json.loads(outs[fmt])
+                except Exception as e:
+                    res.violate("C13.2-run_scenarios-raised", {"format": fmt, "managers": names, "exception": type(e).__name__, "message": str(e)[:120]})
+                    break
+            for n, mm in enumerate(models):
+                if res.violations:
+                    break
+                stats_n = mm.statistics()
+                rich = check_stats(res, stats_n, mm.world.snaps) or rich
+                if res.violations or not any("idle" in stats_n[t].get("a", {}) for t in stats_n):
+                    continue
+                times_n = [float(t) for t in sorted(stats_n)]
+                for fmt, out in outs.items():
+                    try:
+                        if fmt == "df":
+                            series = {float(t): v for t, v in out["%s_s0_a_idle" % names[n]].to_dict().items()}
+                        else:
+                            node = out[names[n]]["s0"]["agents"]["a"]["idle"]
+                            series = {float(t): v for t, v in (node if isinstance(node, dict) else node.to_dict()).items()}
+                    except Exception as e:
+                        res.violate("C13.2-series-missing", {"format": fmt, "manager": names[n], "managers_in_call": 2,
+                                                             "exception": type(e).__name__, "message": str(e)[:80]})
+                        break
+                    for t in times_n:
+                        compared = True
+                        want = lookup(stats_n, t, "a", "idle")
+                        got = series.get(t)
+                        if got is None or not close(got, want):
+                            res.violate("C13.2-value", {"format": fmt, "manager": names[n], "managers_in_call": 2, "time": t,
+                                                        "returned": got, "statistics": float(want)})
+                            break
+                    if res.violations:
+                        break
+            stats = m.statistics()
+            snaps = m.world.snaps
+            try:
+                b.destroy()
+            except Exception:
+                pass
     else:
         with patches.installed(threads="serial", global_thread=True):
             two = case["via"] == "bptk_class"
